@@ -607,6 +607,15 @@ def c12_case(times, parents, idkind, ndim3d, extra, rename, parent_enc, malforme
     nm = {"time": tcol, "pos": (["z", "y", "x"] if ndim3d else ["y", "x"]), "id": idcol, "parent_id": "parent_id"}
     if extra:
         nm["score"] = "score"
+    # a mapping that names a column the table does not have, although a column differing only in letter case exists
+    if malformed == "case_time":
+        nm["time"] = tcol.upper()
+    if malformed == "case_pos":
+        nm["pos"] = [c.upper() if c == "y" else c for c in nm["pos"]]
+    if malformed == "case_extra":
+        nm["score"] = "Score"
+        if not extra:
+            df["score"] = [0.1 * i for i in range(n)]
     if rename:
         df = df.rename(columns={idcol: "id"}) if False else df
     bad = []
@@ -663,7 +672,7 @@ def c12(size, seed):
         for times, parents in forests(n, 3):
             for idkind in ("int", "str", "zero"):
                 for ndim3d in (False, True):
-                    for malformed in (None, "dup", "unknown_parent", "self", "missing_col"):
+                    for malformed in (None, "dup", "unknown_parent", "self", "missing_col", "case_time", "case_pos", "case_extra"):
                         for extra, rename, penc in ((False, False, "nan"), (True, True, "minus1")):
                             if size == "quick" and n == 3 and (hash((times, parents, idkind, ndim3d, malformed, extra)) % 3):
                                 continue
